@@ -238,11 +238,13 @@ def main(prop: str, tier: str) -> int:
     rep = common.Reporter('C15', tier)
     sc = schemas()
     behs: list[str] = []
-    r = tlc.run('Construct', {'Schemas': tla_schemas(sc)}, invariants=['TypeOK'], constraints=['Emit'],
+    fam = '{"subsets", "vary"}' if tier == 'quick' else '{"subsets", "vary", "pairs"}'
+    r = tlc.run('Construct', {'Schemas': tla_schemas(sc), 'Families': fam}, invariants=['TypeOK'], constraints=['Emit'],
                 on_print=lambda p: behs.append(p[1]), timeout=3000)
     if not r.ok:
         rep.machinery_error(f'Construct TLC run failed: {r.violated} {r.tail[-800:]}')
-    behs = sorted(set(behs))
+    # the same combination reached through several families is checked once
+    behs = sorted({json.dumps({'cls': json.loads(b)['cls'], 'sel': json.loads(b)['sel']}) for b in behs})
     with mp.Pool(16) as pool:
         for out in pool.imap_unordered(_chunk, list(common.chunked(behs, 200))):
             for kind, msg, b in out:
